@@ -13,7 +13,8 @@ def main():
     bad = 0
     warn = 0
     try:
-        mods = sorted(glob.glob(os.path.join(d, "*.tla")))
+        # proof modules that EXTEND TLAPS are parsed by tlapm, not by SANY
+        mods = sorted(m for m in glob.glob(os.path.join(d, "*.tla")) if "TLAPS" not in open(m).read().split("=====")[0].split("EXTENDS", 1)[-1].split("\n")[0])
         with concurrent.futures.ThreadPoolExecutor(max_workers=8) as ex:
             for m, (ok, out) in zip(mods, ex.map(tlc.sany, mods)):
                 if not ok:
